@@ -72,7 +72,10 @@ def h_cog_spec(maxpad):
     sh = shm()
     ny, nx = Int("ny", 1, 2**12), Int("nx", 1, 2**12)
     # requested tile: symbolic multiple-of-anything in a small range (rounded by the code)
-    t = Int("tile", 1, 1024)
+    # non-square requested tile: the per-axis overview counts pair image width with tile width and
+    # image height with tile height (a mix-up only shows for non-square image AND tile)
+    t = Int("tile_x", 1, 1024)
+    t_y = Int("tile_y", 1, 1024)
     kw = {}
     if maxpad == "sym":
         mp = Int("max_pad", 0, 64)
@@ -82,8 +85,8 @@ def h_cog_spec(maxpad):
         kw["max_pad"] = mp
     else:
         mp = None
-    shape, tile, n = sh.compute_cog_spec((ny, nx), (t, t), **kw)
-    prove("tile_multiple_of_16", And(tile.x % 16 == 0, tile.y % 16 == 0, tile.x >= t, tile.x - t < 16, tile.x == tile.y))
+    shape, tile, n = sh.compute_cog_spec((ny, nx), (t_y, t), **kw)
+    prove("tile_multiple_of_16", And(tile.x % 16 == 0, tile.y % 16 == 0, tile.x >= t, tile.x - t < 16, tile.y >= t_y, tile.y - t_y < 16))
     n1 = sh.num_overviews(tile.x, nx)
     n2 = sh.num_overviews(tile.y, ny)
     prove("levels_is_max_over_axes", n == max(n1, n2))
